@@ -219,15 +219,22 @@ Fixpoint wf_mty (ts : types) (t : mty) : bool :=
 
 Definition is_bracket (b : byte) : bool := byte_eqb b x5b || byte_eqb b x5d.   (* '[' ']' *)
 
-(* a struct name: non-empty, no array brackets (identifier), not the name of an atomic type
-   (those start with a lower-case keyword; it is enough that the name is not declared as both) *)
+(* a struct name: non-empty, no array brackets (identifier); and (wf_types) not the name of an
+   atomic type *)
 Definition wf_name (n : bytes) : bool :=
   negb (existsb is_bracket n) && match n with [] => false | _ => true end.
+
+(* every well-formed atomic type *)
+Definition wf_atomics : list atomic :=
+  [ABool; AAddress; ABytes; AString]
+  ++ map (fun k => AUint (8 * N.of_nat k)) (seq 1 32)
+  ++ map (fun k => AInt (8 * N.of_nat k)) (seq 1 32)
+  ++ map (fun k => ABytesN (N.of_nat k)) (seq 1 32).
 
 Definition wf_types (ts : types) : Prop :=
   NoDup (keys ts) /\
   Forall (fun nd => wf_name (fst nd) = true /\
-                    (forall a, fst nd <> atomic_name a) /\
+                    (forall a, wf_atomic a = true -> fst nd <> atomic_name a) /\
                     Forall (fun m => wf_mty ts (sm_ty m) = true) (snd nd)) ts.
 
 Definition wf_doc (d : doc) : Prop :=
